@@ -11,15 +11,15 @@ type Shape struct {
 var Shapes = []Shape{
 	{"prefix", []string{`(?:ab*){2}`, `(c[ab]){2,}`, `(?:ab){2}c`, `(?:ab*){2,3}`, `(abcd)|(abx)|(abcd)`, `abcd|abx|abcd`, `(?i)(?:abc)*`, `(?i)(abc)?`, `(?i)(?:abc){0,2}`, `(?:abc)*`, `(?:ab)?c`, `abc|abd|ab`, `(?i)abc|abd`, `ab(?:c|d)e`}},
 	{"landmark", []string{`\w+[bB]{1,2}[abAB]\z`, `[ab]*[a-c]{1,2}\w*a{1,2}$`, `\w+\s+at\s+\w+`, `\d+-\d+`, `[a-c]+x[a-c]+`}},
-	{"bumpalong", []string{`(?>[ab]+?[^a]+)[^a]?\Z`, `(?>a+?b)c`, `(?>(?:a+?b))c`, `a*b`, `.*b`, `.*?b`, `(?s).*a`, `\w*1`}},
+	{"bumpalong", []string{`(a*b)\1`, `(\w*b)\1`, `(?<x>a*b)c\k<x>`, `(?>[ab]+?[^a]+)[^a]?\Z`, `(?>a+?b)c`, `(?>(?:a+?b))c`, `a*b`, `.*b`, `.*?b`, `(?s).*a`, `\w*1`}},
 	{"findmode-anchor", []string{`\Aab`, `\Gab`, `ab\z`, `a.c$`, `^ab`, `(?m)^ab`, `ab$`, `(?m)ab$`, `\Ga`, `^`, `\z`, `a\Z`}},
 	{"findmode-bm", []string{`éab`, `aéb`, `abé`, `ёab`, `aёb`, `éab\d`, `\x{10000}ab`, `aab`, `aba`, `abab`, `éaé`, `ÿab`, `a\x80b`, `(?i)éab`, `(?i)abé`, `abcab`, `éa`, `bé`}},
-	{"findmode-prefix", []string{`abc.*`, `(?i)abc\d`, `abc|abd|xyz`, `abab`, `aab`, `abcab`, `éa`, `ab|cd`, `abc|abd`, `(?i)ab|cd`, `aa|ab|ba`}},
+	{"findmode-prefix", []string{`(?i)aab`, `(?i)abab`, `(?i)aaab`, `(?i)aba!`, `(?i)a-a-b`, `abc.*`, `(?i)abc\d`, `abc|abd|xyz`, `abab`, `aab`, `abcab`, `éa`, `ab|cd`, `abc|abd`, `(?i)ab|cd`, `aa|ab|ba`}},
 	{"findmode-set", []string{`[ab]c`, `.b[cd]`, `..ab`, `[^a]b`, `[a-c]x`, `\d[ab]`, `[ab][cd][ab]`, `a[bc]d`, `\w\d`, `(?i)[ab]c`}},
 	{"findmode-literalafterloop", []string{`\w+@x`, `[a-c]*:d`, `a*b`, `[ab]*c`, `\d*x`, `[ab]+cd`}},
 	{"autoatomic", []string{`a*b`, `a*a`, `a*[^a]`, `a*[ab]`, `[ab]*c`, `[ab]*b`, `a*$`, `a*\b`, `\w*\b`, `\d+\b`, `a*b*c`, `a*b*a`, `a*?b`, `a*?b*`,
 		`(a*b)*`, `(?:a+[b])*`, `(?:a+[ab])*`, `x(?:a*|b)c`, `a*(?=b)`, `a*(?<=b)c`, `(?i)a*B`, `a+b+`, `\w+\d`, `\d+\w`, `[ab]+[bc]`, `a?b`, `a?a`, `(?:ab)*a`, `(?:ab)*c`}},
-	{"endbacktrack", []string{`ab*`, `a(?:b|c*)`, `(?:ab*)*`, `(ab*?)+?`, `(?=ab*)a`, `(?>(?>a*))`, `(?(a)b*|c*)`, `(?:a|b*)`, `(?>a|ab)c`, `(?>ab|a)b`}},
+	{"endbacktrack", []string{`(?:a[ab]?){2}`, `(ab|abc){2}`, `(?:ab*){2}`, `(?>(?:a[ab]?){2})c`, `(?=(?:a[ab]*){2})\w+`, `(?:a[ab]?){2,}?`, `(?!(?:a[ab]?){2})a+`, `(\w+\d*){2}`, `(?:a[ab]?){3}`, `ab*`, `a(?:b|c*)`, `(?:ab*)*`, `(ab*?)+?`, `(?=ab*)a`, `(?>(?>a*))`, `(?(a)b*|c*)`, `(?:a|b*)`, `(?>a|ab)c`, `(?>ab|a)b`}},
 	{"alternation", []string{`abc|abd`, `ab|ac|ad|b`, `a|b|cd|e`, `\w1|\w2|\d3`, `(?>hi|there|hello)x`, `(?>a||b)`, `ab|cd||ef`, `ab|(?!)|cd`, `[ab]x|[ab]y`,
 		`a|ab`, `ab|a`, `(a|ab)(c|bcd)(d*)`, `(?>abc|abd|x)e`, `(?:a|b)c|(?:a|b)d`, `ax|ay|bz`}},
 	{"coalesce", []string{`a*a`, `a+a*`, `aa*?`, `a*?a*?`, `[ab][ab]*`, `a{2,3}a{1,2}`, `(?>a*)a+`, `a+ab`, `.*.`, `aa+`, `a*a*`, `a?a?`, `a{2}a{2}`, `[ab]*[ab]`, `a+?a`}},
